@@ -121,7 +121,11 @@ func (w *world) verifier(in Input) (notation.Verifier, notation.BlobVerifier, in
 	if err != nil {
 		panic(fmt.Sprintf("c12: NewVerifierWithOptions: %v", err))
 	}
-	return v, v, v
+	// the optional skip interface, by a RUNTIME assertion as notation.Verify does (nil = the verifier never skips)
+	sk, _ := any(v).(interface {
+		SkipVerify(context.Context, notation.VerifierVerifyOptions) (bool, *trustpolicy.VerificationLevel, error)
+	})
+	return v, v, sk
 }
 
 // one-signature repository
@@ -204,6 +208,11 @@ func (w *world) runMatrix(in Input) Obs {
 			out, err := bv.VerifyBlob(ctx, bad, w.blobSigs[in.Sig], bopts)
 			o.Err, o.Outcome, o.Consistent = err != nil, outcomeOf(out), vconsistent(err, out, selected(in.Blob))
 		case "skipVerify":
+			if skipper == nil {
+				// not a skipper: nothing is skipped, nothing fails
+				o.Consistent = true
+				return
+			}
 			skip, _, err := skipper.SkipVerify(ctx, vopts)
 			o.Err = err != nil
 			if skip {
